@@ -481,6 +481,13 @@ def rerun_fixed_point(rep, drv, contents, res, k, case_dir, src_root, dst_root, 
     ev, bad = parse_json_lines(out)
     summ = next((e for e in ev if e.get("type") == "summary"), None)
     rep.tag("c03.rerun")
+    if rc != 0 and summ is not None:
+        # the recorded residual collision, directory variant: a destination entry <x>.sy.tmp that is NOT a regular leftover (the user's own
+        # directory) makes the block-delta update of x fail, honestly (error record, exit 1) — which a first run that CREATED x does not meet
+        # and an --ignore-times re-run does.  Errors confined to such x are that finding, not a broken fixed point.
+        errs_ = {os.path.relpath(e["path"], dst_root) for e in ev if e.get("type") == "error" and e.get("path")}
+        coll_ = {r[:-7] for r in pre if r.endswith(".sy.tmp") and (pre.get(r[:-7]) or {}).get("k") == "f" and os.path.isfile(os.path.join(src_root, r[:-7]))}
+        if errs_ and errs_ <= coll_: rep.tag("known.working-file-name-in-use"); return
     if rc != 0 or summ is None:
         rep.oracle_fail("C03/rerun-failed", f"re-run after a successful sync exits {rc}: {err[-200:]}", desc); return
     fp0, fp1 = tree_fingerprint(pre), tree_fingerprint(post)
@@ -881,7 +888,13 @@ def oracles(rep, focus, desc, rc, ev, bad, summ, real_events, real_errors, pre_s
         evp = {rel for _, rel in real_events} | set(real_errors)
         for rel in set(fp0) | set(fp1):
             if fp0.get(rel) != fp1.get(rel) and rel not in evp and not any(rel.startswith(e + "/") for e in evp):
-                rep.oracle_fail("C19/change-without-event", f"{rel} changed but no event mentions it", desc)
+                base = rel[:-7] if rel.endswith(".sy.tmp") else None
+                if base is not None and rel not in post_dst and (pre_src.get(base) or {}).get("k") == "f" and (pre_dst.get(base) or {}).get("k") == "f" and fp0.get(base) != fp1.get(base):
+                    # the recorded residual collision (C05/user-file-named-like-temp) seen through C19: the entry bearing the working-file name of
+                    # the updated `base` disappears and no event names it — its own signature, so that any OTHER silent change stays a violation
+                    rep.oracle_fail("C19/change-without-event/working-file-name-in-use", f"{rel} (the working-file name of the updated {base}) was removed and no event mentions it", desc)
+                else:
+                    rep.oracle_fail("C19/change-without-event", f"{rel} changed but no event mentions it", desc)
     # --- C08: the dry run's actions are exactly the real run's (when no task failed)
     if "_dry" in desc:
         d = desc.pop("_dry")
